@@ -353,8 +353,14 @@ def run_case(ctx, case, res: Result, ops, pending, with_model=True):
                         if len(rows) == 4 and len(cs) == 4: st["4x4"] += 1
                         if case.get("direct"): st["direct_nonuniform"] += 1
                         if not close(got, want, POLY_RTOL, sc):
-                            fail = (f"table of degree <= 3 in T and P is not reproduced between the nodes ({case['vars'][k]}): "
-                                    "the value is not that of the interpolating bicubic spline", got, want, "geotherm:bicubic-exact"); break
+                            # NOT the property's statement ("converges", exact only AT nodes) but the CONTRACT the model assumes of the
+                            # spline (ReproducesBicubicsOn): a mismatch is a broken correspondence, to be searched, not a violation by itself
+                            if len(res.disagreements) < 12:
+                                res.disagreements.append(Disagreement("c19.contract.reproduces_bicubics",
+                                                                      jsonable({k_: v_ for k_, v_ in case.items() if not k_.startswith("_")}),
+                                                                      jsonable(got), jsonable(want),
+                                                                      note=f"table of degree <= 3 in T and P is not reproduced between the nodes ({case['vars'][k]})"))
+                            break
                     else:   # smooth tables: error against the generating function
                         kk = value_k(case["vars"][k])
                         truth = [smooth_f(t, p, kk) for t, p in zip(Tg, Pg)]
@@ -757,11 +763,13 @@ def convergence(ctx, series_list, res: Result):
                         input=payload, observed={"errors": e}, expected="error shrinks at every halving of the spacing and is <= 0.5 (scale ~100)",
                         site="geotherm:convergence")); break
                 if r < ORDER_RATIO:
-                    res.oracle_failures.append(OracleFailure(
-                        what="between nodes the error of the interpolated value shrinks by less than 8 per halving of the grid spacing "
-                             "(the interpolating bicubic spline is fourth order: 16)",
-                        input=payload, observed={"errors": e, "ratios": ratios}, expected=f"ratio >= {ORDER_RATIO}",
-                        site="geotherm:convergence-order")); break
+                    # fourth-order convergence is what the model's bicubic contract implies, not what the property states ("converges"):
+                    # a slower but convergent interpolant breaks the correspondence with the model, not the property
+                    if len(res.disagreements) < 12:
+                        res.disagreements.append(Disagreement("c19.contract.fourth_order", payload, {"errors": e, "ratios": ratios},
+                                                              f"ratio >= {ORDER_RATIO}",
+                                                              note="error shrinks by less than 8 per halving of the grid spacing (interpolating bicubic spline: 16)"))
+                    break
     del worst[12:]
 
 
@@ -900,8 +908,10 @@ def run(ctx: Ctx) -> Result:
     request_stats(cases, res)
     res.notes.append("geotherm options: --t-col names the PRESSURE column and --p-col the TEMPERATURE column (as their help strings say; "
                      "defaults P and T); passing the names the other way round evaluates the table at (x=P, y=T) — see Lean geotherm_named_columns")
-    res.notes.append("geotherm:bicubic-exact and geotherm:convergence-order demand that the spline be the interpolating BICUBIC spline (fourth order), "
-                     "which is what the model's contract assumes; a lower-order interpolant that still converges would be reported by them")
+    res.notes.append("c19.contract.reproduces_bicubics / c19.contract.fourth_order measure the CONTRACT the model assumes of the spline (interpolating "
+                     "bicubic, fourth order); a lower-order interpolant that still converges breaks the correspondence (searched, reported without "
+                     "failing input if none), it is not itself a violation of the statement; the statement's own oracle is geotherm:nodes + "
+                     "geotherm:convergence (error shrinks at every halving)")
     return res
 
 
